@@ -16,6 +16,7 @@ import runlayer
 import vlib
 
 PID = "C27"
+CONFIRM_BY_REPLAY = True   # a new deviation is reported only if replaying its stored case repeats it
 META = {
     "cat": "exploration",
     "text": "The complete lattice of 64 severity/certainty option sets (enumerated by TLC from Gate.tla) is applied to every input (files built "
